@@ -1,4 +1,4 @@
-import OmplModel.Model.Ptc
+import OmplModel.Proofs.Ptc
 import Mathlib.Tactic.Linarith
 import Mathlib.Tactic.FieldSimp
 import Mathlib.Tactic.Ring
@@ -86,6 +86,75 @@ theorem reportSeq_spec (i win : Nat) (eps : ℚ) (c : Nat → ℚ) (hw1 : 1 ≤ 
           by_cases hjk : j = k + 1
           · subst hjk; exact absurd hfj hf
           · exact ⟨j, by omega, hfj⟩
+
+/-! ### cost reports interleaved with other operations -/
+
+/-- `k` reports through the callback, report `j+1` preceded by the batch `segs j` of other operations -/
+def reportSeqI (env : Env) (c : Nat → ℚ) (segs : Nat → List (Op ℚ)) : Nat → World ℚ → World ℚ
+  | 0, w => w
+  | k + 1, w => reportCost ((reportSeqI env c segs k w).run env (segs k)) (c k)
+
+/-- one report, from a world whose callback carries `(avgₖ, k)` and whose flag says "some report `≤ k` fired" -/
+theorem reportCost_spec (i win : Nat) (eps : ℚ) (c : Nat → ℚ) (hw1 : 1 ≤ win) (hw2 : win < sizeMod) (k : Nat)
+    (w : World ℚ) (hcb : w.cb = some ⟨i, win, eps, avg win c k, k⟩)
+    (hterm : w.st.term i = true ↔ ∃ j, j ≤ k ∧ FiresAt win eps c j) :
+    (reportCost w (c k)).cb = some ⟨i, win, eps, avg win c (k + 1), k + 1⟩ ∧
+      ((reportCost w (c k)).st.term i = true ↔ ∃ j, j ≤ k + 1 ∧ FiresAt win eps c j) := by
+  have hm1 : 1 ≤ min (k + 1) win := by omega
+  have hm2 : min (k + 1) win < sizeMod := by omega
+  have hstep : (CC.step (⟨i, win, eps, avg win c k, k⟩ : CC ℚ) (c k)) =
+      (⟨i, win, eps, avg win c (k + 1), k + 1⟩,
+        decide (min (k + 1) win = win) && (decide ((1 - eps) * avg win c k < avg win c (k + 1)) &&
+          decide (avg win c (k + 1) < (1 + eps) * avg win c k))) := by
+    simp only [CC.step, size_pred _ hm1 hm2, avg, PNum.ofNat]
+    norm_num
+  constructor
+  · simp only [reportCost, hcb, hstep]
+  · have hfire : (decide (min (k + 1) win = win) && (decide ((1 - eps) * avg win c k < avg win c (k + 1)) &&
+          decide (avg win c (k + 1) < (1 + eps) * avg win c k))) = true ↔ FiresAt win eps c (k + 1) := by
+      simp only [Bool.and_eq_true, decide_eq_true_eq, FiresAt, Nat.add_sub_cancel]
+      constructor
+      · rintro ⟨h1, h2, h3⟩
+        exact ⟨by omega, by omega, h2, h3⟩
+      · rintro ⟨_, h1, h2, h3⟩
+        exact ⟨by omega, h2, h3⟩
+    simp only [reportCost, hcb, hstep]
+    by_cases hf : FiresAt win eps c (k + 1)
+    · rw [if_pos (hfire.mpr hf)]
+      constructor
+      · intro _; exact ⟨k + 1, Nat.le_refl _, hf⟩
+      · intro _; simp [upd]
+    · have hnf : ¬ ((decide (min (k + 1) win = win) && (decide ((1 - eps) * avg win c k < avg win c (k + 1)) &&
+          decide (avg win c (k + 1) < (1 + eps) * avg win c k))) = true) := fun h => hf (hfire.mp h)
+      rw [if_neg hnf, hterm]
+      constructor
+      · rintro ⟨j, hj, hfj⟩; exact ⟨j, by omega, hfj⟩
+      · rintro ⟨j, hj, hfj⟩
+        by_cases hjk : j = k + 1
+        · subst hjk; exact absurd hfj hf
+        · exact ⟨j, by omega, hfj⟩
+
+theorem reportSeqI_spec (env : Env) (i win : Nat) (eps : ℚ) (c : Nat → ℚ) (hw1 : 1 ≤ win) (hw2 : win < sizeMod)
+    (segs : Nat → List (Op ℚ)) (hq : ∀ k, ∀ op ∈ segs k, CostQuiet i op)
+    (w0 : World ℚ) (hcb : w0.cb = some ⟨i, win, eps, 0, 0⟩) (ht : w0.st.term i = false) :
+    ∀ k, (reportSeqI env c segs k w0).cb = some ⟨i, win, eps, avg win c k, k⟩ ∧
+      ((reportSeqI env c segs k w0).st.term i = true ↔ ∃ j, j ≤ k ∧ FiresAt win eps c j) := by
+  intro k
+  induction k with
+  | zero =>
+    refine ⟨by simpa [reportSeqI, avg] using hcb, ?_⟩
+    simp only [reportSeqI, ht]
+    constructor
+    · intro h; exact absurd h (by simp)
+    · rintro ⟨j, hj, hf⟩
+      have : j = 0 := by omega
+      subst this
+      exact absurd hf.1 (by omega)
+  | succ k ih =>
+    obtain ⟨ihcb, ihterm⟩ := ih
+    obtain ⟨q1, q2⟩ := run_quiet env i (segs k) (reportSeqI env c segs k w0) (hq k)
+    simp only [reportSeqI]
+    exact reportCost_spec i win eps c hw1 hw2 k _ (q1.trans ihcb) (by rw [q2]; exact ihterm)
 
 /-! ### `Planner::solve(double)` -/
 
